@@ -17,6 +17,12 @@ if os.path.exists('/tmp/probe/seed_verify.log'):
     for line in open('/tmp/probe/seed_verify.log'):
         m = re.match(r'/tmp/seed/(C\d\d[ab]?)/SEED/(\d): (.*)', line.strip())
         if m: verif[f"{m.group(1)}-{m.group(2)}"] = m.group(3)
+suite = {}
+for log in ['/tmp/probe/seed_suite_nonstore.log', '/tmp/probe/seed_suite_store.log']:
+    if os.path.exists(log):
+        for line in open(log):
+            m = re.match(r'/tmp/seed/(C\d\d[ab]?)/SEED/(\d) suite\((\w+)\) exit=(\d+)', line.strip())
+            if m: suite.setdefault(f"{m.group(1)}-{m.group(2)}", {})[m.group(3)] = 'pass' if m.group(4) == '0' else 'FAIL'
 rows = []
 for d in sorted(glob.glob('/tmp/seed/C*/SEED/*')):
     m = re.match(r'/tmp/seed/(C\d\d)([ab]?)/SEED/(\d+)$', d)
@@ -36,7 +42,7 @@ for d in sorted(glob.glob('/tmp/seed/C*/SEED/*')):
             'needs_to_manifest': 'see NOTES.md (written by the sub-agent that produced the change)',
             'produced_by': 'independent sub-agent given only the property text and a scratch worktree',
             'confirmed_here': verif.get(sid, 'apply/build/demo not re-run in this session'),
-            'checks_run': ev, 'caught_by': caught, 'detected': bool(caught)}
+            'existing_suite_with_change': suite.get(sid, {}), 'checks_run': ev, 'caught_by': caught, 'detected': bool(caught)}
     json.dump(meta, open(out + '/meta.json', 'w'), indent=1)
     first = ''
     for p in caught:
